@@ -113,6 +113,10 @@ func (x *Exec) step(fr *frameRun, st *State, instr ssa.Instruction) error {
 		et := in.Type().Underlying().(*types.Pointer).Elem()
 		r := x.alloc(st, "alloc_"+in.Comment)
 		p := &Val{T: in.Type(), C: []*Term{r}}
+		if x.lastAlloc == nil {
+			x.lastAlloc = map[string]*Term{}
+		}
+		x.lastAlloc[typeKey(et)] = r
 		if at, ok := et.Underlying().(*types.Array); ok {
 			// arrays behind pointers live in the element heaps (so they can be sliced)
 			x.zeroElems(st, at.Elem(), r)
